@@ -226,8 +226,16 @@ RETCODE adfRenameEntry ( struct AdfVolume * const vol,
         return rc;
 
     // update dircache : the record of the old directory goes
-    if ( isDIRCACHE(vol->dosType) && pSect != nPSect )
+    if ( isDIRCACHE(vol->dosType) && pSect != nPSect ) {
         rc = adfDelFromCache ( vol, &parent, entry.headerKey );
+        if ( rc != RC_OK )
+            return rc;
+    }
+
+    /* the cache of the new directory may have taken a block, the cache of the
+       old one may have given one back: the bitmap on the volume follows */
+    if ( isDIRCACHE(vol->dosType) )
+        rc = adfUpdateBitmap ( vol );
 /*
     if (isDIRCACHE(vol->dosType) && pSect!=nPSect) {
         adfUpdateCache(vol, &nParent, (struct bEntryBlock*)&entry,TRUE);
